@@ -538,6 +538,413 @@ inline Json rnum(Rng &g, const Profile &p, int depth, size_t poolsize)
     return r;
 }
 
+
+// ---------------------------------------------------------------------------
+// "everything serialisable" generator (C19 / C20 / C41 workloads)
+inline Json rall(Rng &g, int depth, size_t poolsize);
+inline Json rallbool(Rng &g, int depth, size_t poolsize);
+
+inline Json rallnum_leaf(Rng &g, size_t poolsize)
+{
+    Json r = Json::array();
+    switch (g.below(22)) {
+        case 0:
+        case 1:
+            if (poolsize > 0) {
+                r.push("ref");
+                r.push((long long)g.below(poolsize));
+                return r;
+            }
+            // fallthrough
+        case 2:
+        case 3:
+        case 4:
+            r.push("sym");
+            r.push((long long)g.below(5));
+            return r;
+        case 5:
+        case 6:
+            r.push("int");
+            r.push((long long)g.range(-20, 20));
+            return r;
+        case 7: { // big integers only as operands of + and * (special
+                  // functions of huge arguments recurse very deeply)
+            r.push(g.chance(1, 2) ? "add" : "mul");
+            Json bi = Json::array();
+            bi.push("bigint");
+            bi.push(std::string(g.chance(1, 2) ? "-" : "") + "9876543210123456789"
+                    + std::to_string(g.below(100000)));
+            r.push(bi);
+            Json sy = Json::array();
+            sy.push("sym");
+            sy.push((long long)g.below(5));
+            r.push(sy);
+            return r;
+        }
+        case 8:
+        case 9:
+            r.push("rat");
+            r.push((long long)g.range(-40, 40));
+            r.push((long long)g.range(2, 19));
+            return r;
+        case 10: {
+            static const double vals[] = {0.5, -0.25, 1.5, 2.75, -3.125, 0.1,
+                                          1e-3, 12.5, -0.7, 1e30, 5e-324, 3.0};
+            r.push("real");
+            r.push(vals[g.below(12)]);
+            return r;
+        }
+        case 11: { // exact bit patterns: -0.0, +inf, -inf, denormal, odd mantissa
+            // (infinite doubles are left out: floor/ceiling/arithmetic on
+            // them fail inside constructors, which is outside C19/C20)
+            static const char *bits[] = {"8000000000000000", "0000000000000001",
+                                         "3ff0000000000001", "400921fb54442d18",
+                                         "bfb999999999999a", "3fd5555555555555",
+                                         "c00c000000000001"};
+            r.push("realbits");
+            r.push(bits[g.below(7)]);
+            return r;
+        }
+        case 12:
+        case 13:
+            r.push("cplx");
+            r.push((long long)g.range(-9, 9));
+            r.push((long long)g.range(1, 7));
+            r.push((long long)g.range(-9, 9));
+            r.push((long long)g.range(1, 7));
+            return r;
+        case 14:
+            r.push("cdbl");
+            r.push(g.chance(1, 2) ? 0.5 : -1.25);
+            r.push(g.chance(1, 2) ? 2.0 : -0.75);
+            return r;
+        case 15:
+        case 16: {
+            static const char *c[] = {"pi", "E", "EulerGamma", "Catalan", "GoldenRatio", "I"};
+            r.push("const");
+            r.push(c[g.below(6)]);
+            return r;
+        }
+        case 17:
+            r.push("inf");
+            r.push((long long)g.range(-1, 1));
+            return r;
+        case 18:
+            r.push("nan");
+            return r;
+        case 19:
+            r.push("dummy");
+            r.push((long long)g.below(6));
+            r.push(g.chance(1, 2) ? "d" : "tmp");
+            return r;
+        default:
+            r.push("sym");
+            r.push((long long)g.below(8));
+            return r;
+    }
+}
+
+inline Json rallset_simple(Rng &g, size_t poolsize)
+{
+    Json r = Json::array();
+    auto num = [&](int64_t lo, int64_t hi) {
+        Json a = Json::array();
+        if (g.chance(1, 4)) {
+            a.push("rat");
+            a.push((long long)(2 * g.range(lo, hi) + 1));
+            a.push(2);
+        } else {
+            a.push("int");
+            a.push((long long)g.range(lo, hi));
+        }
+        return a;
+    };
+    switch (g.below(5)) {
+        case 0:
+        case 1: {
+            r.push("interval");
+            Json lo = num(-9, 0), hi = num(1, 9);
+            if (g.chance(1, 6)) {
+                lo = Json::array();
+                lo.push("inf");
+                lo.push(-1);
+            }
+            if (g.chance(1, 6)) {
+                hi = Json::array();
+                hi.push("inf");
+                hi.push(1);
+            }
+            r.push(lo);
+            r.push(hi);
+            r.push((long long)g.below(2));
+            r.push((long long)g.below(2));
+            return r;
+        }
+        case 2: {
+            static const char *n[] = {"reals", "rationals", "integers", "empty", "universal"};
+            r.push("set");
+            r.push(n[g.below(5)]);
+            return r;
+        }
+        default: {
+            r.push("finiteset");
+            unsigned n = 1 + (unsigned)g.below(4);
+            for (unsigned i = 0; i < n; i++) {
+                Json e = Json::array();
+                switch (g.below(4)) {
+                    case 0:
+                        e.push("sym");
+                        e.push((long long)g.below(5));
+                        break;
+                    case 1:
+                        e.push("rat");
+                        e.push((long long)g.range(-9, 9));
+                        e.push((long long)g.range(2, 5));
+                        break;
+                    case 2:
+                        e.push("real");
+                        e.push(g.chance(1, 2) ? 0.5 : -2.75);
+                        break;
+                    default:
+                        e.push("int");
+                        e.push((long long)g.range(-9, 9));
+                }
+                r.push(e);
+            }
+            return r;
+        }
+    }
+}
+
+// set constructors are only combined in shapes the library's set algebra
+// handles (deeper mixes of Complement / ConditionSet / Union recurse without
+// bound inside set_union & co., which is outside the serialization properties)
+inline Json rallset(Rng &g, int depth, size_t poolsize)
+{
+    Json r = Json::array();
+    unsigned k = (unsigned)g.below(depth <= 0 ? 3 : 8);
+    switch (k) {
+        case 0:
+        case 1:
+        case 2:
+            return rallset_simple(g, poolsize);
+        case 3:
+        case 4: {
+            r.push("union");
+            unsigned n = 2 + (unsigned)g.below(2);
+            for (unsigned i = 0; i < n; i++) {
+                Json e = rallset_simple(g, poolsize);
+                while (e[0].s == "set")
+                    e = rallset_simple(g, poolsize);
+                r.push(e);
+            }
+            return r;
+        }
+        case 5: {
+            r.push("complement");
+            Json u = Json::array();
+            u.push("set");
+            u.push(g.chance(1, 2) ? "reals" : "integers");
+            r.push(u);
+            Json e = rallset_simple(g, poolsize);
+            while (e[0].s == "set")
+                e = rallset_simple(g, poolsize);
+            r.push(e);
+            return r;
+        }
+        case 6: {
+            r.push("imageset");
+            r.push((long long)g.below(3));
+            r.push(rall(g, depth - 1, poolsize));
+            Json e = rallset_simple(g, poolsize);
+            while (e[0].s == "finiteset")
+                e = rallset_simple(g, poolsize);
+            r.push(e);
+            return r;
+        }
+        default: {
+            r.push("conditionset");
+            r.push((long long)g.below(3));
+            Json c = Json::array();
+            static const char *rel[] = {"lt", "le", "gt", "ge"};
+            c.push(rel[g.below(4)]);
+            Json sy = Json::array();
+            sy.push("sym");
+            sy.push((long long)g.below(3));
+            c.push(sy);
+            c.push(rall(g, depth - 1, poolsize));
+            r.push(c);
+            return r;
+        }
+    }
+}
+
+inline Json rallbool(Rng &g, int depth, size_t poolsize)
+{
+    Json r = Json::array();
+    unsigned k = (unsigned)g.below(depth <= 0 ? 5 : 11);
+    if (k < 4) {
+        static const char *rel[] = {"lt", "le", "gt", "ge", "eq", "ne"};
+        r.push(rel[g.below(6)]);
+        r.push(rall(g, depth - 1, poolsize));
+        r.push(rall(g, depth - 1, poolsize));
+        return r;
+    }
+    if (k == 4) {
+        r.push("bool");
+        r.push((long long)g.below(2));
+        return r;
+    }
+    if (k == 5) {
+        r.push("contains");
+        r.push(rall(g, depth - 1, poolsize));
+        r.push(rallset(g, depth - 1, poolsize));
+        return r;
+    }
+    if (k == 6) {
+        r.push("not");
+        r.push(rallbool(g, depth - 1, poolsize));
+        return r;
+    }
+    static const char *ops[] = {"and", "or", "xor", "nand", "xnor"};
+    r.push(ops[g.below(5)]);
+    unsigned n = 2 + (unsigned)g.below(2);
+    for (unsigned i = 0; i < n; i++)
+        r.push(rallbool(g, depth - 1, poolsize));
+    return r;
+}
+
+inline Json rall(Rng &g, int depth, size_t poolsize)
+{
+    if (depth <= 0 || g.chance(1, 6))
+        return rallnum_leaf(g, poolsize);
+    Json r = Json::array();
+    static const std::vector<std::string> un = {
+        "sin", "cos", "tan", "cot", "csc", "sec", "asin", "acos", "asec", "acsc",
+        "atan", "acot", "sinh", "csch", "cosh", "sech", "tanh", "coth", "asinh",
+        "acsch", "acosh", "atanh", "acoth", "asech", "log", "exp", "abs", "sign",
+        "floor", "ceiling", "truncate", "conjugate", "gamma", "loggamma", "erf",
+        "erfc", "lambertw", "zeta", "dirichlet_eta", "digamma", "sqrt", "cbrt",
+        "neg", "unevaluated"};
+    static const std::vector<std::string> bin = {
+        "pow", "sub", "div", "atan2", "beta", "lowergamma", "uppergamma",
+        "polygamma", "kronecker_delta", "zeta2", "logb"};
+    unsigned k = (unsigned)g.below(24);
+    if (k < 5) {
+        r.push(g.chance(1, 2) ? "add" : "mul");
+        unsigned n = 2 + (unsigned)g.below(3);
+        for (unsigned i = 0; i < n; i++)
+            r.push(rall(g, depth - 1, poolsize));
+        return r;
+    }
+    if (k < 7) {
+        r.push("pow");
+        r.push(rall(g, depth - 1, poolsize));
+        Json e = Json::array();
+        if (g.chance(1, 2)) {
+            e.push("rat");
+            e.push((long long)g.range(-5, 5));
+            e.push((long long)g.range(2, 3));
+        } else if (g.chance(1, 2)) {
+            e.push("int");
+            e.push((long long)g.range(-4, 5));
+        } else
+            e = rall(g, depth - 1, poolsize);
+        r.push(e);
+        return r;
+    }
+    if (k < 12) {
+        r.push(un[g.below(un.size())]);
+        r.push(rall(g, depth - 1, poolsize));
+        return r;
+    }
+    if (k < 15) {
+        r.push(bin[g.below(bin.size())]);
+        r.push(rall(g, depth - 1, poolsize));
+        r.push(rall(g, depth - 1, poolsize));
+        return r;
+    }
+    if (k == 15) {
+        r.push(g.chance(1, 2) ? "max" : "min");
+        unsigned n = 2 + (unsigned)g.below(2);
+        for (unsigned i = 0; i < n; i++)
+            r.push(rall(g, depth - 1, poolsize));
+        return r;
+    }
+    if (k == 16) {
+        r.push("levi_civita");
+        unsigned n = 2 + (unsigned)g.below(2);
+        for (unsigned i = 0; i < n; i++)
+            r.push(g.chance(1, 2) ? rallnum_leaf(g, poolsize) : rall(g, depth - 1, poolsize));
+        return r;
+    }
+    if (k == 17) {
+        r.push("fsym");
+        r.push(g.chance(1, 2) ? "f" : "gfun");
+        unsigned n = 1 + (unsigned)g.below(3);
+        for (unsigned i = 0; i < n; i++)
+            r.push(rall(g, depth - 1, poolsize));
+        return r;
+    }
+    if (k == 18) {
+        r.push("piecewise");
+        unsigned n = 1 + (unsigned)g.below(2);
+        for (unsigned i = 0; i < n; i++) {
+            r.push(rall(g, depth - 1, poolsize));
+            r.push(rallbool(g, depth - 1, poolsize));
+        }
+        r.push(rall(g, depth - 1, poolsize));
+        return r;
+    }
+    if (k == 19) { // unevaluated derivative of an undefined function
+        r.push("derivative");
+        Json f = Json::array();
+        f.push("fsym");
+        f.push("f");
+        Json s0 = Json::array();
+        s0.push("sym");
+        s0.push(0);
+        f.push(s0);
+        if (g.chance(1, 2)) {
+            Json s1 = Json::array();
+            s1.push("sym");
+            s1.push(1);
+            f.push(s1);
+        }
+        r.push(f);
+        r.push(0);
+        if (g.chance(1, 2))
+            r.push((long long)g.below(2));
+        return r;
+    }
+    if (k == 20) {
+        r.push("subsobj");
+        Json d = Json::array();
+        d.push("derivative");
+        Json f = Json::array();
+        f.push("fsym");
+        f.push("f");
+        Json s0 = Json::array();
+        s0.push("sym");
+        s0.push(0);
+        f.push(s0);
+        d.push(f);
+        d.push(0);
+        r.push(d);
+        r.push(0);
+        r.push(rall(g, depth - 1, poolsize));
+        return r;
+    }
+    if (k == 21)
+        return rallbool(g, depth - 1, poolsize);
+    if (k == 22)
+        return rallset(g, depth - 1, poolsize);
+    r.push("diff");
+    r.push(rall(g, depth - 1, poolsize));
+    r.push((long long)g.below(3));
+    return r;
+}
+
 inline size_t recipe_nodes(const Json &r)
 {
     if (r.type != Json::Array)
